@@ -7,15 +7,23 @@ SPEC = {
                  'C22_rejected_leaves_pool_unchanged', 'C22_accepted_appends_one',
                  'C22_group_wrapper_is_head', 'C22_foreign_wrapper_rejected', 'C22_wrapper_witness_rejected',
                  'C22_accepted_implies_acceptable_refuted', 'C22_refuted_forward',
-                 'C22_refuted_negfee', 'C22_refuted_hdrempty', 'C22_guards_satisfiable'],
+                 'C22_refuted_negfee', 'C22_refuted_hdrempty', 'C22_guards_satisfiable',
+                 'C22_blacklist_positions_are_C31_core',
+                 'C22_history_entries_admitted_partial', 'C22_history_pool_unexpired_partial',
+                 'C22_history_pool_unexpired_refuted', 'C22_delay_cache_never_blocked',
+                 'C22_header_moves_verdicts', 'C22_fork_gate_moves_verdict', 'C22_delayed_enter_through_pipeline',
+                 'C22_history_guard_satisfiable'],
     'allowed_axioms': [],
     'shard': 20,
-    'check_preamble': 'From C33 Require Import C22.Model.\nOpen Scope Z_scope.\n',
-    'rule': 'one case = one history of EventTx messages (6-14 quick, 6-24 thorough; the clause matrix up to ~50) sent through the '
+    'check_preamble': 'From C33 Require Import C22.Model C22.ModelH.\nOpen Scope Z_scope.\n',
+    'rule': 'one case = one history of EventTx / EventAddDelayTx / EventAddBlock messages (6-18 quick, 6-30 thorough; the scripted matrices up to ~60) sent through the '
             'message queue to one real Mempool (SimpleQueue, its own eventProcess/pipeline goroutines) whose neighbour modules '
             '(blockchain: header, sync state, on-chain hashes; execs: CheckTx verdicts; rpc: evm nonces; p2p) are scripted; '
-            'after every message the reply class (20 classes) and the membership of every hash of the history '
-            '(EventTxListByHash) and EventGetMempoolSize are recorded. Transactions are real (secp256k1 / secp256k1eth '
+            'after every message the reply class (29 classes; ErrBlockedAccount split by the position its text names) and the '
+            'membership of every hash of the history (EventTxListByHash) and EventGetMempoolSize are recorded; after an '
+            'EventAddBlock (not answered) the harness waits until the event loop has handled it and the pushDelayTxRoutine '
+            'goroutine is parked in its own select again (goroutine dump, seen twice), i.e. every released delayed transaction '
+            'has been answered. Transactions are real (secp256k1 / secp256k1eth '
             'signatures, CreateTxGroup-style groups of 2-8) and carry their facts by construction. Streams: witness-* (the 3 '
             'refutation witnesses and the former witness of the fixed finding 2: foreign wrapper refused, the other account\'s '
             'transaction and an honestly wrapped group admitted), matrix (every single-clause violation x {plain, group head, '
@@ -24,7 +32,23 @@ SPEC = {
             'bytes, no signature), matrix-pairs (pairs of violations), matrix-tiers (fee '
             'tiers at and around the boundaries, MaxTxNumber 10/20), matrix-limits (per-sender limit, capacity, '
             'resubmission), guarded (random histories satisfying the 3 guards, 1 group in 10 with a foreign wrapper: every spec '
-            'failure is a violation), unrestricted (may be forwarded, have a negative fee under rate 0, a ground header). Random '
+            'failure is a violation), unrestricted (may be forwarded, have a negative fee under rate 0, a ground header). '
+            'New streams with a moving header: para-titles (groups whose execers name user.p.test. / user.p.other. / no title / '
+            'the bare user.p. prefix / the main chain, on a main-chain node and on the node of user.p.test., ForkTxGroupPara '
+            'active from the start or crossed by a block in the middle; groups led by a foreign execer on the parachain node '
+            'are forwarded = finding 1), realto (coins transfers whose payload names the recipient: exec-address To with a listed / '
+            'unlisted payload recipient, To = payload recipient, both listed; evm payloads; as plain transaction, as each member '
+            'of a group of 3, and as delayed transactions; on a parachain node where GetRealToAddr reads the payload and on a '
+            'main-chain node where it does not), header (12 probes at the edge of every header-dependent rule - height / block '
+            'time / clock expiry, both ends of the TxHeight window, chain id, fee cap, mixed para group - submitted before and '
+            'after blocks that move height, block time and clock across the edge and across ForkTxChainIDStrict / ForkBlockCheck / '
+            'ForkTxHeight / ForkTxGroupPara, with a stale block, a block carrying pooled transactions and re-submissions), '
+            'delay (delay cache = half the pool capacity filled by EventAddDelayTx and by none/CommitDelayTx transactions of '
+            'blocks; nil / wrong-type / duplicate / overflow / blacklisted; release by block time in ascending order then by '
+            'height, against the per-sender limit; delayed transactions that are expired, badly signed or underpaid when '
+            'released; height-0 and far-ahead blocks), witness-delayed-negfee (finding 3 through the delayed path), moving '
+            '(random mixtures of all three messages, fork heights inside the range of heights, re-submissions, delayed '
+            're-submissions of earlier transactions). Random '
             'configuration per history: main/para, MaxTxNumber 10..10000, MinTxFeeRate 0/1000/100000, tiered fee, MaxTxFeeRate, '
             'per-sender limit 1-3, capacity 2-6, exec check on/off, synced or not, height 1-30, block time, evm nonces. '
             'non-trivial = at least one accepted and one rejected submission; distinct = distinct Gallina case terms',
@@ -44,15 +68,30 @@ SPEC = {
         'SimpleQueue is the queue (timeline mempool); reply classes are a function of the error text '
         '(group-structure errors form one class); the address-validity cache of address.CheckAddress (C19) is avoided by '
         'using each recipient string with one fixed validity',
-        'parachain title rules inside Transactions.CheckWithFork (ErrTxGroupParaCount / ParaMainMixed) are not modelled; '
-        'generated groups use one execer',
-        'blacklist dimensions exercised: sender, recipient, evm payload ContractAddr and 20-byte Para (plus a non-listed evm '
-        'payload as control); the GetRealToAddr dimension is not generated (ExecTypeBase.cfg is process-global state)',
+        'execers are facts too: t_para (0 no user.p. prefix / 1 prefix without title / title identity) is computed by the '
+        'harness\'s own reading of the execer string, the forwarding flag by construction (parachain node and execer not of '
+        'user.p.test.) and cross-checked against types.IsForward2MainChainTx',
+        'blacklist facts (7 bits per transaction: sender / recipient / real recipient differs / real recipient listed / evm '
+        'payload / ContractAddr listed / Para listed) are set by construction; "real recipient differs" is cross-checked '
+        'against Transaction.GetRealToAddr (the coins executor type is re-bound to each history\'s configuration with '
+        'SetConfig, as a parachain process binds it once). C22_blacklist_positions_are_C31_core ties the facts to the '
+        'address-level model of C31 (parsing, base58 checksum = C31\'s Section variable)',
+        'the scripted blockchain module answers "on chain" for every transaction a delivered block carried; the model reads '
+        'that from the fact t_on_chain, which the harness evaluates when the transaction is handed over (generators never '
+        'put a transaction that is waiting in the delay cache into a block)',
+        'not modelled: the pool-age rule of removeExpiredTx (entries older than 600 s; check_case refuses histories whose '
+        'clock moves that far: clock_ok), EventDelBlock / delBlock (re-adds a rolled-back block\'s transactions with the fee '
+        'and expiry checks only), the retry list of pushDelayTxRoutine (never filled: QueueProtocol.SendTx returns a fresh '
+        'fmt.Errorf error, so err == types.ErrMemFull is never true), delayed transactions that are to be forwarded on a '
+        'parachain node (they leave through a grpc client; modelled as not submitted, never generated)',
+        'address validity and signature validity are height-independent facts (default address / crypto enable heights)',
     ],
     'assumptions': [
         'cfg_ok: MinTxFeeRate >= 0 and MaxTxFeeRate >= 0',
-        'the header is fixed during a history (no EventAddBlock between submissions) and the clock is pinned with '
-        'types.SetTimeDelta; submissions are sequential (one reply awaited before the next message)',
+        'the clock is pinned with types.SetTimeDelta and moved only by block steps; messages are sequential (one reply '
+        'awaited before the next message; after a block the delayed-transaction goroutine has come to rest)',
+        'history theorems: guard good = not forwarded, no member Header parsing as an empty group, facts consistent, for '
+        'every submission the history carries (C22_history_pool_unexpired_refuted: finding 4 breaks it otherwise)',
         'partial: guards g_fwd, g_fee, g_hdr (each shown necessary by a refutation reproduced on the Go code); the former '
         'guard g_wrap is gone (finding 2 fixed in chain33 1d587b5)',
     ],
@@ -63,9 +102,16 @@ SPEC = {
                       'group-member expiry skipped when the group hash parses as protobuf). The fourth finding '
                       '(unauthenticated group wrapper) is fixed in chain33 1d587b5: the wrapper of an admitted group is proved '
                       'to be its first transaction (same hash, same signature) and any other wrapper is proved refused. '
-                      'Rejected submissions leave the pool unchanged; accepted ones append exactly the submitted transaction',
+                      'Rejected submissions leave the pool unchanged; accepted ones append exactly the submitted transaction. '
+                      'Extended: the conjunction now names all five blacklist positions (tied to C31\'s address-level model) and '
+                      'the one-chain rule of groups (ForkTxGroupPara); over histories with blocks and delayed transactions every '
+                      'pool entry is proved to have passed the pipeline at the header of its time (fork gates re-evaluated), the '
+                      'delay cache never holds a blacklisted transaction, and under the guards no pool entry is ever expired for '
+                      'the next block of the current header',
         'level_note': 'model = hand-written Gallina transcription of eventTx/checkTxs/checkTx/checkLevelFee/checkSign/'
-                      'isGroupHead/checkTxRemote/evmTxNonceCheck/txCache.Push and Transaction(s).Check/GetRealFee/isExpire over abstract '
+                      'isGroupHead/checkTxRemote/evmTxNonceCheck/txCache.Push, Transaction(s).Check/CheckWithFork/GetRealFee/isExpire, '
+                      'checkTxBlockedAccountCore, eventAddBlock/addDelayTx/pushExpiredDelayTx/pushDelayTxRoutine/eventAddDelayTx/'
+                      'delayTxCache/removeExpiredTx/Forks.IsFork over abstract '
                       'transaction facts; tied to the Go code by per-submission correspondence of reply class and pool '
                       'membership; neighbour modules scripted',
         'technique': 'Coq proof (case analysis of the admission pipeline; refutations by computation) + in-kernel correspondence check',
